@@ -302,7 +302,9 @@ class Extent(object):
         for e in self.S.events:
             self.cur_ev = e
             vals = []
-            if e.kind == "call":
+            if e.kind == "call" and getattr(e, "inlined", False):
+                pass  # a helper analysed in place: what matters is what its body does with the arguments
+            elif e.kind == "call":
                 vals.extend(e.args or [])
                 vals.extend((e.kwargs or {}).values())
                 if e.recv is not None:
@@ -312,7 +314,8 @@ class Extent(object):
             elif e.kind == "store":
                 vals.extend([e.base, e.index, e.value])
             elif e.kind == "return":
-                vals.append(e.value)
+                if tuple(e.chain) == (self.S.fn.qual,):
+                    vals.append(e.value)  # (the return of an inlined helper is judged where the caller uses the value)
             for c, _ in (e.graw or ()):
                 vals.append(c)
             for v in vals:
